@@ -4,6 +4,7 @@
 -/
 import CharsetProof.Model.Concrete
 import CharsetProof.Model.SortLarge
+import CharsetProof.Model.SortSmall
 import CharsetProof.Model.DecodeHelper
 import CharsetProof.Model.Cli
 import CharsetProof.Model.Cd
@@ -235,6 +236,19 @@ def handle (line : String) : String :=
       let lt : Nat → Nat → Bool := fun i j => m[i * n + j]? == some '1'
       "ok " ++ " ".intercalate ((sortUnstable lt (List.range n)).map toString)
     | none => "bad-op"
+  | "merge" :: lists =>
+    -- merge_coherence_ratios on per-chunk lists `Lang=scorebits,...` ("-" = empty list / no lists)
+    match (if lists = ["-"] then some [] else lists.mapM parseCoh) with
+    | some ls => "ok " ++ showCoh (mergeModel ls)
+    | none => "bad-op"
+  | ["sortsmall", n, keys] =>
+    -- n elements 0..n-1 of a 16-byte type, compared by `keys[i] < keys[j]` (total preorder)
+    match n.toNat?, (if keys = "-" then some [] else (keys.splitOn ",").mapM (·.toNat?)) with
+    | some n, some ks =>
+      let ka := ks.toArray
+      let lt : Nat → Nat → Bool := fun i j => decide (ka[i]?.getD 0 < ka[j]?.getD 0)
+      "ok " ++ " ".intercalate ((sortUnstableSmall lt (List.range n)).map toString)
+    | _, _ => "bad-op"
   | ["cmp", ca, ha, ta, la, cb, hb, tb, lb] =>
     match f32OfBits ca, f32OfBits ha, ta.toNat?, la.toNat?, f32OfBits cb, f32OfBits hb, tb.toNat?, lb.toNat? with
     | some ca, some ha, some ta, some la, some cb, some hb, some tb, some lb =>
